@@ -87,6 +87,12 @@ theorem c09_index_reject {cfg : Config} (hwf : WF cfg) (roots : List Nat) {v : N
     labeledGroups (graphOf cfg) roots = .error .cycle :=
   c09_reject_labeled (graphOf cfg) (graphOf_inRange hwf) roots hv hc
 
+/-- **C09 (configurations, trailing separators).** -/
+theorem c09_index_reject_dir {cfg : Config} (hwf : WFD cfg) (roots : List Nat) {v : Nat}
+    (hv : v ∈ closure (graphOf cfg) roots) (hc : Reach1 (graphOf cfg) v v) :
+    labeledGroups (graphOf cfg) roots = .error .cycle :=
+  c09_reject_labeled (graphOf cfg) (graphOf_inRange_dir hwf) roots hv hc
+
 /-- the oracle's test "`v` is reachable from one of its own dependencies" is "`v` lies on a cycle" -/
 theorem reach1_iff_closure (g : Graph) (hr : InRange g) (v : Nat) :
     Reach1 g v v ↔ v ∈ closure g (g.out v) := by
